@@ -166,19 +166,19 @@ def run(cx):
     cache_rules(cx, repo, add, "R10b", "R10d")
 
     # ---------------- R10c
-    _r10c(cx, repo)
+    cx.guard(_r10c, cx, repo)
     # ---------------- R10e
-    _r10e(cx, repo)
+    cx.guard(_r10e, cx, repo)
     # ---------------- R10f
-    _r10f(cx, repo)
+    cx.guard(_r10f, cx, repo)
     # ---------------- R10g
-    _r10g(cx, repo)
+    cx.guard(_r10g, cx, repo)
     # ---------------- R10h
-    _r10h(cx, repo)
+    cx.guard(_r10h, cx, repo)
     # ---------------- R10i
-    _r10i(cx, repo)
+    cx.guard(_r10i, cx, repo)
     # ---------------- R10j
-    _r10j(cx, repo)
+    cx.guard(_r10j, cx, repo)
 
 
 # -------------------------------------------------------------------------------------------- R10c
